@@ -9,9 +9,9 @@ on it; build with `lake build SuxModel.Space.EFReal`).
 
 `ef_bits_le`  : `n·l + (n + (u >> l) + 1) ≤ n (2 + max 0 (log₂ (u/n))) + 1` for every `n ≥ 1`, `u`
                 (the `+ 1` is the sentinel bit of the upper-bits vector);
-`ef_words_le` : the same for the allocated words, `+ 128` (less than two words of rounding on top
-                of the sentinel bit).
-`n = 0` is `Sux.Space.efWords_zero` (integers): one word plus `u + 1` bits — not bounded by `n`.
+`ef_words_le` : the allocated words, `+ 128` (less than two words of rounding on top of the
+                sentinel bit), for **every** `n` and `u`: the empty sequence takes exactly two words
+                (`Sux.Space.efWords_zero`; /repo 76fce19).
 -/
 namespace Sux.Space
 open Real
@@ -72,9 +72,13 @@ theorem ef_bits_le (n u : ℕ) (hn : 0 < n) :
     push_cast
     nlinarith [mul_le_mul_of_nonneg_left hmx hnR.le]
 
-/-- allocated words: less than two words of rounding on top of the sentinel bit -/
-theorem ef_words_le (n u : ℕ) (hn : 0 < n) :
+/-- allocated words, every `n` and `u`: less than two words of rounding on top of the sentinel bit -/
+theorem ef_words_le (n u : ℕ) :
     ((64 * efWords n u : ℕ) : ℝ) ≤ (n : ℝ) * (2 + max 0 (logb 2 ((u : ℝ) / n))) + 128 := by
+  rcases Nat.eq_zero_or_pos n with h0 | hn
+  · subst h0
+    rw [efWords_zero]
+    norm_num
   have h1 : ((64 * efWords n u : ℕ) : ℝ) ≤ ((n * efL n u + efHighBits n u + 127 : ℕ) : ℝ) := by
     exact_mod_cast efWords_le n u
   have h2 := ef_bits_le n u hn
